@@ -14,6 +14,8 @@ import Py4hwV.Props.C06
     init_inv, init_raises_iff, init_by_identity, capture_model, clear_resets, alias_share, no_raise  (Proofs/C15Capture)
     clockDrivers_val, clkCycle_recorder, capture_gated, capture_clk                       (Proofs/C15Net)
     getWavedrom_rows / _decodes / _span / _clk, capture_once_per_cycle, waveform_end_to_end, gated_counterexample (here)
+    session_capture, session_render_spec, session_dict_spec, session_queries_transparent   (Props/C15Session.lean, imports this file:
+                                                        arbitrary operation lists with queries, several Waveform objects)
 -/
 namespace C15
 open Net Waveform
